@@ -107,10 +107,13 @@ def run(ck):
                        "idle task evaluated through the verif-only media.VerifIdleCheck with period 0 (no recent HLS access) or 1 h (recent)",
                        "a consumer's release is awaited for up to 3 s because it completes in its delivery goroutine; only its eventual occurrence is judged"]
 
+    # the management API (administrative delete / stop, listings, table edits, who may call what)
+    from checks import api_common
+    api_common.api_leg(ck, "C05")
 
 META = {
     "text": "TLC enumerates every history up to length 3 (quick) / 4 (thorough) of the registry reference model, the complete edge cover of its abstract state graph (660 states, 9212 (state, operation) pairs; quick replays a seeded sample of 2500) and simulated histories of length 12, with the expected API answers after every step; all are replayed on the real media package. Two concurrent registrations / on-demand pulls are explored through every interleaving of the hook points and the outcomes validated by TLC.",
     "note": "Trusted: TLC, Registry.tla/RegistRace.tla as transcription of the statement, the gate scheduler for the races. On-demand pull uses a fake PullStreamFactory that registers synchronously; the real RTSP pull client is C20.",
     "technique": "TLA+ reference model of the registry; TLC-generated histories (exhaustive, edge cover, simulation) replayed on real code with step-wise comparison; TLC-generated race schedules replayed through hook gates and TLC validation of outcomes",
-    "specs": ["registry"],
+    "specs": ["api", "registry"],
 }
